@@ -105,6 +105,39 @@ func diffWire(a, b []byte) string {
 	return "no structural difference (length or padding)"
 }
 
+// ambiguousReading returns the rule one gets when every filter "f<=v" (operator '<', '>' or '&' with a
+// string value that starts with '=') is read as the two-character operator followed by the rest.
+func ambiguousReading(s rulegen.Spec) (rulegen.Spec, bool) {
+	alt := s
+	alt.Filters = append([]rulegen.Filter(nil), s.Filters...)
+	any := false
+	for i, f := range alt.Filters {
+		if !f.C && f.IsStr && (f.Op == "<" || f.Op == ">" || f.Op == "&") && len(f.RHS) > 1 && f.RHS[0] == '=' {
+			f.Op += "="
+			f.OpC = uapi.A(rulegen.OpConst[f.Op])
+			f.RHS = f.RHS[1:]
+			f.Val = uint32(len(f.RHS))
+			alt.Filters[i] = f
+			any = true
+		}
+	}
+	return alt, any
+}
+
+// archFirst returns the spec with its arch filter moved to the front.
+func archFirst(s rulegen.Spec) rulegen.Spec {
+	alt := s
+	alt.Filters = nil
+	for _, f := range s.Filters {
+		if f.LHS == "arch" && !f.C {
+			alt.Filters = append([]rulegen.Filter{f}, alt.Filters...)
+		} else {
+			alt.Filters = append(alt.Filters, f)
+		}
+	}
+	return alt
+}
+
 func propC07(s rulegen.Spec) error {
 	wf, stage, err := build(s)
 	if err != nil {
@@ -129,6 +162,18 @@ func propC07(s rulegen.Spec) error {
 			if !hC07.Known("arch-not-first-reordered", s.Describe()+" displayed as "+txt) {
 				return fmt.Errorf("%s\n  displayed as %q, which re-encodes with the arch filter moved to the front", s.Describe(), txt)
 			}
+		} else if alt, ok := ambiguousReading(s); ok && archFirst(alt).Expect(wf2) == nil && !bytes.Equal(archToFront(wf), wf) {
+			// both known shapes in one rule
+			if !hC07.Known("operator-equals-ambiguity", s.Describe()+" displayed as "+txt) || !hC07.Known("arch-not-first-reordered", s.Describe()+" displayed as "+txt) {
+				return fmt.Errorf("%s\n  displayed as %q, which reads back with the arch filter moved and an operator/value shifted by one '='", s.Describe(), txt)
+			}
+			return nil
+		} else if alt, ok := ambiguousReading(s); ok && alt.Expect(wf2) == nil {
+			// the text of '<' + "=v" is the text of '<=' + "v": the format itself is ambiguous
+			if !hC07.Known("operator-equals-ambiguity", s.Describe()+" displayed as "+txt) {
+				return fmt.Errorf("%s\n  displayed as %q, which reads back with the operator and the value shifted by one '='", s.Describe(), txt)
+			}
+			return nil
 		} else {
 			return fmt.Errorf("%s\n  displayed as %q, which re-encodes to a different rule: %s", s.Describe(), txt, diffWire(wf, wf2))
 		}
